@@ -1395,11 +1395,12 @@ def oracles_C08(ctx, hints):
 def frag_vals(rng, x, cuts, hdr):
     """IP{…} texts of the fragments of payload x cut at the given offsets (ascending, starting with 0)"""
     out = []
+    df = 2 if rng.random() < 0.3 else 0                 # Don't Fragment as captured traffic carries it
     for i, c in enumerate(cuts):
         end = cuts[i + 1] if i + 1 < len(cuts) else len(x)
         h = dict(hdr) if i == 0 else dict(hdr, ttl=rng.boundary(8), dscp=rng.boundary(8), protocol=rng.boundary(8))
         out.append("IP{srcip=%s,dstip=%s,protocol=%d,dscp=%d,id=%d,ttl=%d,flags=%d,fragment_offset=%d,payload=%s}" % (
-            h["srcip"], h["dstip"], h["protocol"], h["dscp"], h["id"], h["ttl"], 1 if i + 1 < len(cuts) else 0, c, hexb(x[c:end])))
+            h["srcip"], h["dstip"], h["protocol"], h["dscp"], h["id"], h["ttl"], (1 if i + 1 < len(cuts) else 0) | df, c, hexb(x[c:end])))
     return out
 
 def rand_cuts(rng, total, n):
@@ -1448,7 +1449,7 @@ def check_reassembly(args):
         p.srcip, p.dstip, p.protocol, p.dscp, p.id, p.ttl = hdr["srcip"], hdr["dstip"], hdr["protocol"], hdr["dscp"], hdr["id"], hdr["ttl"]
         if i > 0 and args.get("vary"):
             p.ttl, p.dscp = (hdr["ttl"] + i) % 256, (hdr["dscp"] + i) % 256
-        p.flags = 1 if i + 1 < len(cuts) else 0
+        p.flags = (1 if i + 1 < len(cuts) else 0) | (2 if args.get("df") else 0)     # MF, and DF as captured traffic has it
         p.fragment_offset = c
         p.payload = x[c:end]
         if args.get("via_bytes"):
@@ -1500,7 +1501,8 @@ def oracles_C16(ctx, hints):
         cuts = rand_cuts(rng, total, cnt)
         hdr = {"srcip": addr(rng)[1:], "dstip": addr(rng)[1:], "protocol": rng.boundary(8), "dscp": rng.boundary(8), "id": rng.boundary(16), "ttl": rng.boundary(8)}
         for perm in itertools.permutations(range(cnt)):
-            args = {"x": x.hex(), "cuts": cuts, "perm": list(perm), "hdr": hdr, "vary": True, "via_bytes": bool(len(perm) % 2)}
+            args = {"x": x.hex(), "cuts": cuts, "perm": list(perm), "hdr": hdr, "vary": True, "via_bytes": bool(len(perm) % 2),
+                    "df": n % 3 == 0}
             n += 1
             w = check_reassembly(args)
             if w:
@@ -1517,7 +1519,8 @@ def oracles_C16(ctx, hints):
         perm = list(range(cnt))
         rng.shuffle(perm)
         hdr = {"srcip": addr(rng)[1:], "dstip": addr(rng)[1:], "protocol": rng.boundary(8), "dscp": rng.boundary(8), "id": rng.boundary(16), "ttl": rng.boundary(8)}
-        args = {"x": x.hex(), "cuts": cuts, "perm": perm, "hdr": hdr, "vary": True, "via_bytes": rng.random() < 0.5}
+        args = {"x": x.hex(), "cuts": cuts, "perm": perm, "hdr": hdr, "vary": True, "via_bytes": rng.random() < 0.5,
+                "df": rng.random() < 0.3}
         n += 1
         w = check_reassembly(args)
         if w:
